@@ -1,12 +1,12 @@
-\* the repaired design: every safety property must hold (three requesters)
+\* the repaired design: every safety property must hold (failing serving loops)
 SPECIFICATION Spec
 CONSTANTS
   NIf = 2
   Kinds = {"ok", "fail", "late"}
-  Req = {"res1", "res2", "shut1"}
+  Req = {"res1", "shut1"}
   Repaired = TRUE
   FixNoIf = TRUE
-  Crashes = FALSE
+  Crashes = TRUE
 INVARIANT TypeOK
 INVARIANT ModulesBeforeListen
 INVARIANT AnnounceExact
